@@ -87,7 +87,7 @@ def _padding_split(res, want_c05):
     keep = []
     for b in res["bad"]:
         is_c05 = any(b["why"].startswith(w) for w in PADDING_WHY_C05)
-        if is_c05 == want_c05:
+        if is_c05 == want_c05 or b["why"].startswith("the preamble is malformed"):
             keep.append(b)
     out = dict(res)
     out["bad"] = keep
@@ -117,6 +117,17 @@ def check_C05(pid, tier, seed, verdict):
     mcs, g, scs, run, res = _padding(pid, tier, seed, verdict)
     mine = _padding_split(res, True)
     verdict.add_trace_result("padding", mine, run)
+    # packet 0 of sessions opened after a scheme push (real Client, fresh child processes, shared with C19): the
+    # preamble must carry line 0 of the scheme in force; only that clause counts here
+    sg = V.run_gen(pid, "MC_SchemePush.tla", "MC_SchemePush.cfg", workers=2)
+    sscs = V.sample(sg["scenarios"], 200 if tier == "thorough" else 24, seed)
+    ssp = os.path.join(V.workdir(pid), "push.scn")
+    V.write_scenarios(ssp, sscs)
+    srun = V.run_harness(pid, "schemepush", seed, tier, ssp)
+    sres = dict(V.run_trace(pid, "Trace_SchemePush.tla", "Trace_SchemePush.cfg", srun["trace"]))
+    sres["bad"] = [b for b in sres["bad"] if "preamble carries" in b["why"]]
+    verdict.add_trace_result("announce", sres, srun)
+    V.log(f"[{pid}] preambles of {sres['cnt']['announce']} sessions of real Clients across scheme pushes judged, bad={len(sres['bad'])}")
     cnt = res["cnt"]
     V.log(f"[{pid}] trace: {res['lines']} events, {cnt['scn']} scenarios, {cnt['packet']} packets, "
           f"bad(C05)={len(mine['bad'])} bad(other)={len(res['bad']) - len(mine['bad'])}")
@@ -138,6 +149,7 @@ MUX_OWNER = {
     "end-of-stream without close": "C02",
     "stream tables do not hold exactly the open streams": "C02",
     "the session's output does not parse / carries bytes of no submitted stream": "C02",
+    "a stream was disturbed (bytes disappeared or a submission failed) after a frame or submission addressed to another id that is unknown, finished or half-closed": ("C01", "C02"),
     "end-of-stream before all data written before the close was delivered": "C08",
     "writer finished but the reader never observed end-of-stream": "C08",
 }
@@ -145,6 +157,11 @@ MUX_OWNER = {
 
 def _mux_owner(why):
     return MUX_OWNER.get(why, "C01")
+
+
+def _mux_mine(why, pid):
+    o = _mux_owner(why)
+    return pid == o or (isinstance(o, tuple) and pid in o)
 
 
 def _mux(pid, tier, seed, verdict):
@@ -168,7 +185,7 @@ def _mux(pid, tier, seed, verdict):
 def _mux_check(pid, tier, seed, verdict, rule, assumptions):
     mcs, scs, run, res = _mux(pid, tier, seed, verdict)
     mine = dict(res)
-    mine["bad"] = [b for b in res["bad"] if _mux_owner(b["why"]) == pid]
+    mine["bad"] = [b for b in res["bad"] if _mux_mine(b["why"], pid)]
     verdict.add_trace_result("mux", mine, run)
     cnt = res["cnt"]
     V.log(f"[{pid}] trace: {res['lines']} events, {cnt['scn']} scenarios, {cnt['read']} reads, {cnt['quiesce']} quiescence "
@@ -193,9 +210,20 @@ def check_C01(pid, tier, seed, verdict):
 
 
 def check_C02(pid, tier, seed, verdict):
-    return _mux_check(pid, tier, seed, verdict, MUX_RULE,
+    cov, assumptions = _mux_check(pid, tier, seed, verdict, MUX_RULE + "; plus (client layer, real time) a stream held open on a "
+                      "pooled session of the real Client while another request is put on the same session and is refused / "
+                      "unresolvable / invalid / unreachable / served and closed / dropped / half-closed: the held stream must "
+                      "still echo its own bytes",
                       ["a duplicate SYN for an id that is currently open is outside the statement and not generated",
                        "origin of foreign bytes is classified by matching the generators of the scenario's other flows"])
+    srun = V.run_harness(pid, "share", seed, tier)
+    sres = V.run_trace(pid, "Trace_Share.tla", "Trace_Share.cfg", srun["trace"])
+    verdict.add_trace_result("share", sres, srun)
+    V.log(f"[{pid}] client layer: {sres['cnt']['share']} held streams with a sibling request on their session "
+          f"({sres['cnt']['nontrivial']} on the same session), bad={len(sres['bad'])}")
+    cov["share_trials"] = sres["cnt"]["share"]
+    cov["share_same_session"] = sres["cnt"]["nontrivial"]
+    return cov, assumptions
 
 
 # ------------------------------------------------------------------------------------------- C11
@@ -604,7 +632,7 @@ def check_C08(pid, tier, seed, verdict):
     # receiving side (FIN handling, EOF after queued data, table release): the in-memory rigs of C01/C02
     mcs, scs, run, res = _mux(pid, tier, seed, verdict)
     mine = dict(res)
-    mine["bad"] = [b for b in res["bad"] if _mux_owner(b["why"]) == pid]
+    mine["bad"] = [b for b in res["bad"] if _mux_mine(b["why"], pid)]
     verdict.add_trace_result("mux", mine, run)
     # sending side, end to end through the real front-ends
     crun = V.run_harness(pid, "close", seed, tier)
